@@ -28,7 +28,7 @@ func ruleC01(c *Ctx, r *Report) {
 		return
 	}
 	an := c.anchors()
-	if !requireAnchors(r, an, "C01-anchor") {
+	if !requireAnchors(r, an, "C01-anchor", "redact") {
 		return
 	}
 	var zn []string
